@@ -444,10 +444,152 @@ func onePass(p *packages.Package, keep map[string]bool, overlay map[string][]byt
 			taken = append(taken, e)
 			edits[f] = append(edits[f], e)
 		}
+		// firstCall: the call that is invoked first when the expressions are evaluated (arguments before the call they
+		// belong to, left to right; nothing under the right operand of && / ||, nothing inside function literals).
+		// Conversions and len/cap are not calls in this sense.
+		firstCall := func(exprs []ast.Expr) *ast.CallExpr {
+			var found *ast.CallExpr
+			var walk func(x ast.Node) bool // false once found or blocked
+			blocked := false
+			walk = func(x ast.Node) bool {
+				if x == nil || found != nil || blocked {
+					return false
+				}
+				switch t := x.(type) {
+				case *ast.FuncLit:
+					return true
+				case *ast.BinaryExpr:
+					if t.Op == token.LAND || t.Op == token.LOR {
+						walk(t.X)
+						if found == nil {
+							// a call on the right would run conditionally: nothing after this point may be hoisted
+							hasCall := false
+							ast.Inspect(t.Y, func(n ast.Node) bool {
+								if _, ok := n.(*ast.CallExpr); ok {
+									hasCall = true
+								}
+								return true
+							})
+							if hasCall {
+								blocked = true
+							}
+						}
+						return true
+					}
+					walk(t.X)
+					walk(t.Y)
+					return true
+				case *ast.UnaryExpr:
+					if t.Op == token.ARROW {
+						blocked = true
+						return true
+					}
+					walk(t.X)
+					return true
+				case *ast.CallExpr:
+					walk(t.Fun)
+					for _, a := range t.Args {
+						walk(a)
+					}
+					if found != nil || blocked {
+						return true
+					}
+					if tv, ok := info.Types[t.Fun]; ok && tv.IsType() {
+						return true
+					}
+					if id, ok := ast.Unparen(t.Fun).(*ast.Ident); ok {
+						if b, ok := info.Uses[id].(*types.Builtin); ok && (b.Name() == "len" || b.Name() == "cap") {
+							return true
+						}
+					}
+					found = t
+					return true
+				case *ast.ParenExpr:
+					walk(t.X)
+				case *ast.SelectorExpr:
+					walk(t.X)
+				case *ast.IndexExpr:
+					walk(t.X)
+					walk(t.Index)
+				case *ast.SliceExpr:
+					walk(t.X)
+					walk(t.Low)
+					walk(t.High)
+					walk(t.Max)
+				case *ast.StarExpr:
+					walk(t.X)
+				case *ast.TypeAssertExpr:
+					walk(t.X)
+				case *ast.CompositeLit:
+					for _, e := range t.Elts {
+						walk(e)
+					}
+				case *ast.KeyValueExpr:
+					walk(t.Key)
+					walk(t.Value)
+				case *ast.Ident, *ast.BasicLit:
+				default:
+					blocked = true
+				}
+				return true
+			}
+			for _, e := range exprs {
+				if e != nil {
+					walk(e)
+				}
+			}
+			if blocked && found == nil {
+				return nil
+			}
+			return found
+		}
+		// hoistNested: a helper call nested in the expressions of a simple statement, invoked before any other call of
+		// that statement, is computed in front of it
+		hoistNested := func(st ast.Stmt, exprs []ast.Expr, top ast.Expr) bool {
+			c := firstCall(exprs)
+			if c == nil || ast.Expr(c) == ast.Unparen(top) {
+				return false
+			}
+			h := calleeOf(c)
+			if h == nil || h.nRes != 1 {
+				return false
+			}
+			pre, res, ok := build(f, c, h)
+			if !ok {
+				return false
+			}
+			whole := text(f, st)
+			rel := off(c.Pos()) - off(st.Pos())
+			relEnd := off(c.End()) - off(st.Pos())
+			add(st, pre+whole[:rel]+res[0]+whole[relEnd:]+"\n")
+			return true
+		}
 		visitList := func(list []ast.Stmt) {
 			for _, st := range list {
 				if overlaps(off(st.Pos()), off(st.End())) {
 					continue
+				}
+				switch t := st.(type) {
+				case *ast.ExprStmt:
+					if hoistNested(st, []ast.Expr{t.X}, t.X) {
+						continue
+					}
+				case *ast.AssignStmt:
+					var top ast.Expr
+					if len(t.Rhs) == 1 {
+						top = t.Rhs[0]
+					}
+					if hoistNested(st, append(append([]ast.Expr{}, t.Lhs...), t.Rhs...), top) {
+						continue
+					}
+				case *ast.ReturnStmt:
+					var top ast.Expr
+					if len(t.Results) == 1 {
+						top = t.Results[0]
+					}
+					if hoistNested(st, t.Results, top) {
+						continue
+					}
 				}
 				switch t := st.(type) {
 				case *ast.ExprStmt:
